@@ -98,6 +98,19 @@ structure Format where
   /-- model of a parser-based validator (used when the generated table lists no regex) -/
   parser : List Nat → Bool
 
+/-- precision labels of the option families (harness/cmd/c20/formats.go) -/
+def precs : List (String × Fmt.Prec) :=
+  [("n", .any), ("m", .minute), ("0", .digits 0), ("1", .digits 1), ("2", .digits 2), ("3", .digits 3), ("9", .digits 9)]
+
+/-- IsoDateTime(options) `dto_<prec>_<offset>_<local>` and IsoTime(options) `tmo_<prec>` -/
+def optionFormats : List Format :=
+  (precs.flatMap fun (pl, p) =>
+    [false, true].flatMap fun off => [false, true].map fun loc =>
+      let b (x : Bool) := if x then "1" else "0"
+      let sp := (Fmt.isoDateTimeOpt p off loc).run
+      (⟨s!"dto_{pl}_{b off}_{b loc}", sp, sp⟩ : Format))
+  ++ precs.map fun (pl, p) => let sp := (Fmt.isoTimeOpt p).run; ⟨s!"tmo_{pl}", sp, sp⟩
+
 def formats : List Format := [
   ⟨"ipv4", Fmt.ipv4.run, Fmt.ipv4.run⟩,
   ⟨"ipv6", Parsers.ipv6Spec, Parsers.ipv6Spec⟩,
@@ -116,7 +129,11 @@ def formats : List Format := [
   ⟨"guid", Fmt.guid.run, Fmt.guid.run⟩,
   ⟨"isodate", Fmt.isoDate.run, Parsers.goDate⟩,
   ⟨"isodatetime", (Fmt.isoDateTime false).run, Parsers.goRFC3339⟩,
-  ⟨"e164", Fmt.e164.run, Fmt.e164.run⟩]
+  ⟨"e164", Fmt.e164.run, Fmt.e164.run⟩,
+  ⟨"macdot", (Fmt.mac 46).run, (Fmt.mac 46).run⟩,
+  ⟨"uuidp6", (Fmt.uuid (some 6)).run, (Fmt.uuid (some 6)).run⟩,
+  ⟨"uuidp7", (Fmt.uuid (some 7)).run, (Fmt.uuid (some 7)).run⟩]
+  ++ optionFormats
 
 structure Live where
   fmt : Format
@@ -322,6 +339,14 @@ def jobs : List Job := [
   job "isodate" Fmt.isoDateQ "Fmt.isoDateQ" "pat_isodate" (lookupRe "isodate" 0 true),
   job "isodatetime" (Fmt.isoDateTimeQ false) "Fmt.isoDateTimeQ false" "pat_isodatetime" (lookupRe "isodatetime" 0 true),
   job "isodatetime_optsec" (Fmt.isoDateTimeQ true) "Fmt.isoDateTimeQ true" "pat_isodatetime" (lookupRe "isodatetime" 0 true),
+  job "macdot" (Fmt.mac 46) "Fmt.mac 46" "val_macdot" (lookupRe "macdot" 0 false),
+  job "tmo_n" (Fmt.isoTimeOpt .any) "Fmt.isoTimeOpt .any" "val_tmo_n" (lookupRe "tmo_n" 0 false),
+  job "tmo_m" (Fmt.isoTimeOpt .minute) "Fmt.isoTimeOpt .minute" "val_tmo_m" (lookupRe "tmo_m" 0 false),
+  job "tmo_0" (Fmt.isoTimeOpt (.digits 0)) "Fmt.isoTimeOpt (.digits 0)" "val_tmo_0" (lookupRe "tmo_0" 0 false),
+  job "tmo_1" (Fmt.isoTimeOpt (.digits 1)) "Fmt.isoTimeOpt (.digits 1)" "val_tmo_1" (lookupRe "tmo_1" 0 false),
+  job "tmo_2" (Fmt.isoTimeOpt (.digits 2)) "Fmt.isoTimeOpt (.digits 2)" "val_tmo_2" (lookupRe "tmo_2" 0 false),
+  job "tmo_3" (Fmt.isoTimeOpt (.digits 3)) "Fmt.isoTimeOpt (.digits 3)" "val_tmo_3" (lookupRe "tmo_3" 0 false),
+  job "tmo_9" (Fmt.isoTimeOpt (.digits 9)) "Fmt.isoTimeOpt (.digits 9)" "val_tmo_9" (lookupRe "tmo_9" 0 false),
   jobE "isodatetime_partial" (Fmt.isoDateTimeQ false) Fmt.isoDateTimeNoSecQ "Fmt.isoDateTimeQ false" "Fmt.isoDateTimeNoSecQ" "pat_isodatetime" (lookupRe "isodatetime" 0 true),
   jobE "base64url_partial" Fmt.base64url Fmt.base64urlBadLen "Fmt.base64url" "Fmt.base64urlBadLen" "pat_base64url" (lookupRe "base64url" 0 true)]
 
